@@ -105,6 +105,9 @@ type storageShadow struct {
 	RewardRnd  int64
 	Pending    map[string]string // settings staged through update_settings
 	SinceJump  int               // storage transactions built since the last big time jump
+	NoHostile  bool              // set while a composite scenario builds its (valid) steps
+	Scenarios  int               // composite scenarios run in this history
+	ScenJumps  int               // ... of which jumped past an expiration
 	Clients    []*world.Wallet   // extra funded clients of the storage workload
 }
 
@@ -328,6 +331,9 @@ func (c *stConfView) writeMinLock() uint64 {
 // ---- small helpers -------------------------------------------------------------------------------------------------------
 
 func (h *Hist) stHostile(r *mon.Rand, scale float64) bool {
+	if h.S.St.NoHostile {
+		return false // inside a composite scenario every step is built valid
+	}
 	p, _ := h.Vars["hostile"].(float64)
 	return r.Chance(p * scale)
 }
@@ -657,6 +663,7 @@ func storageOps() []OpDef {
 	ops = append(ops, stMarkerOps()...)
 	ops = append(ops, stProviderOps()...)
 	ops = append(ops, stGovOps()...)
+	ops = append(ops, stScenarioOps()...)
 	for i := range ops {
 		inner := ops[i].Build
 		ops[i].Build = func(h *Hist, r *mon.Rand) *Call {
